@@ -160,7 +160,8 @@ def run_case(case):
                     pref_intervals_by_bloc={"W": {"W": PreferenceInterval(dict(sup)), "C": PreferenceInterval({"zz": 1.0})},
                                             "C": {"W": PreferenceInterval(dict(sup2)), "C": PreferenceInterval({"zz": 1.0})}},
                     bloc_voter_prop={"W": 0.5, "C": 0.5},
-                    cohesion_parameters={"W": {"W": 1.0, "C": 0.0}, "C": {"W": 1.0, "C": 0.0}}))
+                    # the inner dictionaries of the two arguments list the blocs in different orders
+                    cohesion_parameters={"W": {"C": 0.0, "W": 1.0}, "C": {"W": 1.0, "C": 0.0}}))
         if isinstance(g, Err):
             oracle.append(f"name_BradleyTerry construction failed: {g}")
             return {"model": [], "oracle": oracle, "tags": tags, "nontrivial": False}
